@@ -161,11 +161,6 @@ package transform
 //@   loop 5 invariant [current-recorded] (forall j :: 0 <= j && j < len(idList) ==> has(deduplication, idList[j]))
 //@   loop 5 invariant [current-new] (forall j, g, j2 :: 0 <= j && j < len(idList) && 0 <= g && g < len(extendedSpatialIDToQuadkeyAndVerticalID) && 0 <= j2 && j2 < len(extendedSpatialIDToQuadkeyAndVerticalID[g].innerIDList) ==> extendedSpatialIDToQuadkeyAndVerticalID[g].innerIDList[j2] != idList[j])
 //@   loop 5 invariant [current-distinct] (forall a, b :: 0 <= a && a < b && b < len(idList) ==> idList[a] != idList[b])
-//@   -- coverage inside one input: every (quadkey, vertical index) combination of the current ID is recorded, i.e. reported
-//@   -- now or earlier ([pairs-recorded] / [current-recorded] are the converse); a combination loop that stops early fails here
-//@   loop 5 invariant [row-recorded] (forall b :: 0 <= b && b < $i ==> (exists p: intarr :: has(deduplication, p) && p[0] == quadkey && p[1] == vIndexes[b]))
-//@   loop 5 invariant [earlier-rows-recorded] 0 <= $i4 && $i4 < len(quadkeies) && quadkey == quadkeies[$i4] && (forall a, b :: 0 <= a && a < $i4 && 0 <= b && b < len(vIndexes) ==> (exists p: intarr :: has(deduplication, p) && p[0] == quadkeies[a] && p[1] == vIndexes[b]))
-//@   loop 4 invariant [rows-recorded] (forall a, b :: 0 <= a && a < $i && 0 <= b && b < len(vIndexes) ==> (exists p: intarr :: has(deduplication, p) && p[0] == quadkeies[a] && p[1] == vIndexes[b]))
 //@   -- every returned group carries the request's output zooms and height range unchanged
 //@   ensures [group-parameters] r1 == nil ==> (forall g :: 0 <= g && g < len(r0) ==> r0[g] != nil && r0[g].quadkeyZoom == outputHZoom && r0[g].vZoom == outputVZoom && r0[g].maxHeight == maxHeight && r0[g].minHeight == minHeight)
 //@   loopframe
